@@ -3,7 +3,7 @@
    mapped to their OCaml counterparts; nat stays the unary datatype).
    Run from this directory: coqc -Q ../coq CffVerif Extract.v *)
 From Coq Require Import Extraction ExtrOcamlBasic.
-From CffVerif Require Import BuildTagModel SchedModel ValidateModel FlowSemModel FlowOpModel FlowOpProofs.
+From CffVerif Require Import BuildTagModel SchedModel ValidateModel FlowSemModel FlowOpModel FlowOpProofs PrologueModel.
 
 (* names of FlowOpModel that clash with SchedModel's are re-exported under op_ *)
 Definition op_canonical := FlowOpModel.canonical.
@@ -22,4 +22,5 @@ Extraction "cffmodel.ml" invert eval flip_cff has_cff gen_filename splice
   initc init stepc step run replay is_final wf_cfg_b event_eqb
   validate accepts wf_b funcs provider default_concurrency
   failures result_values calls blocked
-  op_canonical op_run op_valid op_complete op_results op_calls op_fail op_jobs op_deps op_uniq.
+  op_canonical op_run op_valid op_complete op_results op_calls op_fail op_jobs op_deps op_uniq
+  prologue.
